@@ -578,6 +578,10 @@ def parseFrac (s : String) (d : Nat × Nat) : Nat × Nat :=
 
 def waitOf (s : String) : Nat := if s = "max" then 10 ^ 30 else s.toNat?.getD 1000
 
+/-- `wdur=max` / `wdur:max`: `sliding_window_duration(Duration::MAX)` — "never forget a call": a window duration no reachable
+clock value exceeds, so no record ever ages out of it (`TR.Props.C04.unbounded_time_window_keeps_everything`). -/
+def wdurOf (s : String) (d : Nat) : Nat := if s = "max" then 10 ^ 30 else s.toNat?.getD d
+
 /-- one item of the header word `chain=i1,i2,…` -/
 def parseSetter (s : String) : Option Setter :=
   match s.splitOn ":" with
@@ -586,7 +590,7 @@ def parseSetter (s : String) : Option Setter :=
   | ["wait", v] => some (.wait (waitOf v))
   | ["perm", v] => some (.perm (v.toNat?.getD 0))
   | ["wtype", v] => some (.wtype (v == "time"))
-  | ["wdur", v] => some (.wdur (v.toNat?.getD 0))
+  | ["wdur", v] => some (.wdur (wdurOf v 0))
   | ["min", v] => some (.minCalls (v.toNat?.getD 0))
   | ["slow", v] => some (.slow (v.toNat?.getD 0))
   | ["sr", v] => let f := parseFrac v (1, 1); some (.sr f.1 f.2)
@@ -613,7 +617,7 @@ def classicChain (kv : Kv) (all : Bool) : List Setter :=
   ((opt "wait" "1000").map (fun v => Setter.wait (waitOf v))).toList ++
   ((opt "permitted" "1").map (fun v => Setter.perm (v.toNat?.getD 1))).toList ++
   (if kv.nat "listen" 1 == 2 then [Setter.listenSync] else if kv.nat "listen" 1 != 0 then [Setter.listenTr] else []) ++
-  (if kv.str "wtype" "count" = "time" then [Setter.wtype true, .wdur (kv.nat "wdur" 1000)] else []) ++
+  (if kv.str "wtype" "count" = "time" then [Setter.wtype true, .wdur (wdurOf (kv.str "wdur" "1000") 1000)] else []) ++
   ((kv.optNat "min").map Setter.minCalls).toList ++
   ((kv.optNat "slow").map (fun n => [Setter.slow n, .sr sr.1 sr.2])).getD [] ++
   (if kv.nat "cls" 0 != 0 then [Setter.cls (kv.nat "cls" 0)] else [])
